@@ -650,6 +650,7 @@ func main() {
 		"the elliptic curve in model and theorems is the reference curve of Base/Secp.lean; gocoin's limb arithmetic is tied to it by this run only (and is the subject of C08)",
 		"the reference-curve facts used by pub_commutes / ckd_pub_spec / derive_is_bip32 ((a+k mod n)G = aG + kG, parse∘serP = id on curve points, jG finite for 0<j<n) are no longer assumed: they are derived in Proofs/C14Curve.lean from C03's reference_curve_group_law / generator_order / parsePubkey_ser33 (Mathlib's Weierstrass group law; p, n prime by C08_Primes); serialize/WIF round trips import C15's Base58 decode∘encode = id",
 		"outside the model (answer `outside`): private EXTENDED keys ≡ 0 mod n (PublicFromPrivate returns nil and Child / Pub / PubAddr go on with the nil key) - the real code is RUN there all the same; the point at infinity is not serialised any more (fix for C08's api-*-identity findings): NewPrivateAddr / DecodePrivateAddr of a key ≡ 0 mod n panic, public Child with I_L·G + P = ∞ panics, DeriveNextPublic returns the zero buffer - code and model alike (corpus key-0 / key-n / infinity, keys wif-key-zero-mod-n-accepted, derive-next-public-infinity). In the outside region the code is judged by the BIP32 reference wherever that defines a result or demands a refusal; only the junk value is uncompared. Public keys with x ≥ p or x off the curve are NOT outside any more: code (since fix 54b4684a/e70a8ce2) and model refuse them / panic, corpus badPubKeys",
+		"sessions judge a transaction signature with the repository's own interpreter (script.VerifyTxScript, standard flags - the subject of C01/C03) plus an independent comparison of the public key the input carries; message / hash signatures are verified with an independent math/big ECDSA. The store model takes the list of functions that write stored keys from the source (Gen/WalletKeyStoreFacts.lean, a syntactic analysis: names, aliases, helper parameters to a fixpoint; writes through reflection / unsafe / other packages' methods on *PrivateAddr are not seen)",
 		"not covered: non-ASCII white space in mnemonics, typed passwords longer than one 1024-byte terminal read, .others imports, the -p39 prompt (passphrases at the API level only; NFKD: known finding bip39-passphrase-not-nfkd), -encrypt/-decrypt",
 	}
 	r.Extra["observations"] = []string{
@@ -660,6 +661,7 @@ func main() {
 		"wallet -stdin with more than 1024 password bytes panics in getpass (pass[:n] on a [1024]byte array); the seed-file path reads at most 1024 bytes",
 		"atype=tap lists OP_1 <x-only internal key> without the BIP341/BIP86 tweak (gocoin's own convention; outside this property)",
 		"StringWallet imports xprv strings whose key byte 0 is not 00 or whose scalar is 0 / >= n (BIP32 test vector 5 calls them invalid); the model mirrors it (histogram parse-ok-xprv-key-outside-1..n-1)",
+		"make_wallet() never resets keys[] / hd_wallet_xtra: in a combined run `wallet -sign A -msg M -send X=1` main() calls it twice and every record (and every '# ...' line) is in the list twice; the first-match lookups keep answering with the first copy (theorem session_signs_with_listed_key), and with -l added the same run prints and writes the whole list twice (histogram session-list-printed-2x; deterministic, every line still the address of its key)",
 		"DeriveNextPublic still returns the zero-filled buffer for an operand that is no curve point (only HDWallet.Child was changed to panic); the harness requires that what comes back does not read as a public key",
 	}
 	if err := buildWallet(); err != nil {
@@ -757,7 +759,7 @@ func main() {
 	cases = append(cases, genWallets(g.Fork(), r.N(70, 900))...)
 	// sessions: one invocation doing several things with its key store (-sign … together with -send / -raw / -l)
 	cases = append(cases, corpusSessions()...)
-	cases = append(cases, genSessions(g.Fork(), r.N(40, 700))...)
+	cases = append(cases, genSessions(g.Fork(), r.N(40, 400))...)
 	for _, c := range cases {
 		if c.Kind == "wallet" || c.Kind == "child" || c.Kind == "entropy" {
 			r.Sample(c)
@@ -768,6 +770,6 @@ func main() {
 	}
 	runCases(cases)
 	os.RemoveAll(walletTmp)
-	r.Finish("corpus (BIP32 vectors 1/2 and BIP39 vectors read from the repository's tests, hand-made boundaries) + seeded generators: HD walks over 6 private prefixes and their public counterparts with edge indexes; extended-key / WIF strings valid and mutated; BIP39 entropy of every size, mnemonics valid / checksum siblings / replaced / swapped / wrong count / unknown word / odd white space; wallet binary over types 3/4, paths of depth 1..6, hdsubs 1..3, bip39 0/12..24/-1, 5 address types, testnet/litecoin, seed= prefix, non-ASCII and >1024-byte passwords, -stdin, scrypt. A case is distinct by its full input.",
-		"Lean model (HD.lean, Bip39.lean, WalletKeys.lean) vs btc.HDWallet / PrivateAddr / bip39 API in process and vs the real wallet binary (wallet.txt, -dump *, -xprv, -words), plus the property predicate evaluated on the real output against an independent math/big BIP32/BIP39 reference: keys = CKDpriv along the path, CKDpub∘N = N∘CKDpriv, listed address = address of the dumped key, WIF / xprv / xpub re-import, -dump <address> returns the listed key, two runs identical.")
+	r.Finish("corpus (BIP32 vectors 1/2 and BIP39 vectors read from the repository's tests, hand-made boundaries) + seeded generators: HD walks over 6 private prefixes and their public counterparts with edge indexes; extended-key / WIF strings valid and mutated; BIP39 entropy of every size, mnemonics valid / checksum siblings / replaced / swapped / wrong count / unknown word / odd white space; wallet binary over types 3/4, paths of depth 1..6, hdsubs 1..3, bip39 0/12..24/-1, 5 address types, testnet/litecoin, seed= prefix, non-ASCII and >1024-byte passwords, -stdin, scrypt; SESSIONS of the wallet binary (one invocation doing several things with its key store): configuration x [-sign <listed or P2KH address of key i> -msg/-hash] x [nothing | -send | -raw | -l] x balance folders paying listed keys in the P2PKH / P2SH-P2WPKH / P2WPKH / P2TR forms x -rfc6979, litecoin included. A case is distinct by its full input.",
+		"Lean model (HD.lean, Bip39.lean, WalletKeys.lean) vs btc.HDWallet / PrivateAddr / bip39 API in process and vs the real wallet binary (wallet.txt, -dump *, -xprv, -words), plus the property predicate evaluated on the real output against an independent math/big BIP32/BIP39 reference: keys = CKDpriv along the path, CKDpub∘N = N∘CKDpriv, listed address = address of the dumped key, WIF / xprv / xpub re-import, -dump <address> returns the listed key, two runs identical; sessions: the message signature recovers (independent ECDSA) to the key of the address given to -sign, every input of the transaction written later in the same run carries the public key of the listed address it spends from and verifies under the real interpreter, a list printed in a combined run is the reference list once per make_wallet call, and the store model (Model/WalletKeysStore.lean, oracle op session) names for every operation key bytes that belong to the public key in the real signature.")
 }
